@@ -59,7 +59,11 @@ def cases(rng, tier):
         out.append({'kind': rng.choice(['single', 'two']), 'model': model, 'L': L, 'seed': rng.getrandbits(30),
                     'sweeps': rng.choice([1, 2, 3]), 'numiter': rng.choice([2, 3, 4, 6]), 'repeat': rng.choice([1, 1, 2]),
                     'Dmax': rng.choice([1, 2, 3, 4]), 'complete': rng.random() < 0.3, 'scale': rng.choice([1.0, 3.0]),
-                    'sdtype': 'real' if rng.random() < 0.35 else 'complex'})
+                    'sdtype': 'real' if rng.random() < 0.35 else 'complex',
+                    # the start state as a caller may hand it over: as generated, or already normalised and LEFT-canonical
+                    # (normalised, but not in the right-canonical form the sweep needs); between repeated invocations the
+                    # state may have been re-gauged by the caller
+                    'prep': rng.choice(['none', 'none', 'left', 'left']), 'between': rng.choice(['none', 'left', 'right'])})
     SR.mark_replay(out, {'quick': 24, 'thorough': 120, 'search': 0}[tier], 'sweeps')
     return out
 
@@ -83,6 +87,8 @@ def impl(case):
     info = {}
     psi = T.state(H, rs, Dmax=case['Dmax'], complete=case['complete'], dtype=case.get('sdtype', 'complex'), info=info)
     psi.A[-1] = psi.A[-1] * case['scale']
+    if case.get('prep') == 'left' and float(np.linalg.norm(G.mps_dense(psi.A))) > 1e-10:
+        psi.orthonormalize(mode='left')
     v0 = G.mps_dense(psi.A)
     n0 = float(np.linalg.norm(v0))
     if n0 < 1e-10:
@@ -102,6 +108,8 @@ def impl(case):
     import pytenet.minimization as MI
     try:
         for rep in range(case['repeat']):
+            if rep > 0 and case.get('between', 'none') != 'none':
+                psi.orthonormalize(mode=case['between'])
             if case['kind'] == 'single':
                 en, run = SR.run_recorded(MI, ptn.calculate_ground_state_local_singlesite, H, psi, None, numiter, numeric,
                                           case['sweeps'], numiter_lanczos=numiter)
